@@ -14,7 +14,7 @@ import (
 	"github.com/bloxapp/ssv/zz_verif/lib/hx"
 )
 
-var witnessFlag = flag.String("w", "", "witness set: round0 | fulldata | slotwrap | partialslot | honestrun")
+var witnessFlag = flag.String("w", "", "witness set: round0 | fulldata | slotwrap | partialslot | partiallate | honestrun")
 
 func genWitnesses(run *hx.Run, r *hx.Rng) {
 	w := world(4)
@@ -68,9 +68,10 @@ func genWitnesses(run *hx.Run, r *hx.Rng) {
 		m.FullData = nil
 		c.ValidateSSV(kitSSV(w, spectypes.BNRoleAttester, m), at, Env{Mode: "n"}, "witness:honest-after-slotwrap")
 	case "partialslot":
-		// KNOWN FINDING C09/partial-sig-slot-window-unchecked: a far-future partial signature message is accepted and mutes the signer
+		// REGRESSION for the defect repaired by 6c728adc1 (former known finding C09/partial-sig-slot-window-unchecked): partial
+		// signature messages for far-future slots must be turned down (early) and must not mute the signer
 		c := NewCase(run, w, false, "witness/partialslot")
-		for _, ps := range []uint64{1<<64 - 1} {
+		for _, ps := range []uint64{1<<64 - 1, s + 1<<62, s + 1000000, s + 2, s + 1} {
 			pm := tu.PostConsensusAttestationMsg(ks.Shares[1], 1, specqbft.Height(s))
 			pm.Message.Slot = phase0.Slot(ps)
 			enc, _ := pm.Encode()
@@ -79,6 +80,27 @@ func genWitnesses(run *hx.Run, r *hx.Rng) {
 		m := tu.TestingPrepareMessageWithParams(ks.Shares[1], 1, 1, specqbft.Height(s), id, root)
 		m.FullData = nil
 		c.ValidateSSV(kitSSV(w, spectypes.BNRoleAttester, m), at, Env{Mode: "n"}, "witness:honest-after-partial")
+		pm := tu.PostConsensusAttestationMsg(ks.Shares[1], 1, specqbft.Height(s))
+		enc, _ := pm.Encode()
+		c.ValidateSSV(ssvOf(w, vMain, spectypes.BNRoleAttester, spectypes.SSVPartialSignatureMsgType, enc), at, Env{Mode: "n"}, "witness:honest-partial-current-slot")
+	case "partiallate":
+		// KNOWN FINDING C09/partial-sig-late-slot-unchecked: a partial signature message for a long-finished slot is accepted by a
+		// peer without a newer entry for the signer; it cannot mute the signer (the honest messages afterwards are accepted), and
+		// it is refused (slot already advanced) once the entry has moved on
+		c := NewCase(run, w, false, "witness/partiallate")
+		for _, back := range []uint64{1000, 100} {
+			pm := tu.PostConsensusAttestationMsg(ks.Shares[1], 1, specqbft.Height(s))
+			pm.Message.Slot = phase0.Slot(s - back)
+			enc, _ := pm.Encode()
+			c.ValidateSSV(ssvOf(w, vMain, spectypes.BNRoleAttester, spectypes.SSVPartialSignatureMsgType, enc), at, Env{Mode: "n"}, "witness:partial-late-slot")
+		}
+		m := tu.TestingPrepareMessageWithParams(ks.Shares[1], 1, 1, specqbft.Height(s), id, root)
+		m.FullData = nil
+		c.ValidateSSV(kitSSV(w, spectypes.BNRoleAttester, m), at, Env{Mode: "n"}, "witness:honest-after-late-partial")
+		pm := tu.PostConsensusAttestationMsg(ks.Shares[1], 1, specqbft.Height(s))
+		pm.Message.Slot = phase0.Slot(s - 50)
+		enc, _ := pm.Encode()
+		c.ValidateSSV(ssvOf(w, vMain, spectypes.BNRoleAttester, spectypes.SSVPartialSignatureMsgType, enc), at, Env{Mode: "n"}, "witness:partial-late-slot-after-honest")
 	case "honestrun":
 		// one complete honest run with a prepared round change (C10)
 		t := BuildTrace(w, spectypes.BNRoleAttester, s+2, scenarios[4], r)
